@@ -4,6 +4,7 @@ import (
 	"bytes"
 	"encoding/binary"
 	"fmt"
+	"sort"
 
 	"github.com/tsawler/tabula/core"
 )
@@ -571,11 +572,32 @@ func (tt *TrueTypeFont) parseCmapFormat4(r *bytes.Reader) error {
 
 	// For simplicity, we'll just store a basic mapping
 	// Full implementation would handle idDelta and idRangeOffset
+	//
+	// What is stored is the identity over the union of the segments, so every code
+	// is entered once however many segments cover it. The segment count and the
+	// segment bounds both come from the font program: walking each segment on its
+	// own, 8191 segments of 0x0000..0xFFFF (a 64 KB table) took five hundred
+	// million map writes and the full 32767 segments two thousand million.
+	type segment struct{ lo, hi uint32 }
+	segs := make([]segment, 0, len(startCode))
 	for i := range startCode {
-		// Use uint32 for the loop counter to avoid infinite loop when endCode is 0xFFFF
-		// (uint16 would wrap from 0xFFFF to 0 on increment)
-		for c := uint32(startCode[i]); c <= uint32(endCode[i]); c++ {
+		if startCode[i] <= endCode[i] {
+			segs = append(segs, segment{uint32(startCode[i]), uint32(endCode[i])})
+		}
+	}
+	sort.Slice(segs, func(i, j int) bool { return segs[i].lo < segs[j].lo })
+	next := uint32(0) // first code not entered yet
+	for _, s := range segs {
+		// uint32 counter: a uint16 would wrap from 0xFFFF to 0 and never end
+		c := s.lo
+		if c < next {
+			c = next
+		}
+		for ; c <= s.hi; c++ {
 			tt.cmapTable.encoding[rune(c)] = uint16(c)
+		}
+		if s.hi+1 > next {
+			next = s.hi + 1
 		}
 	}
 
